@@ -229,20 +229,25 @@ Example C06_hpke_nonvacuous :
   hpke_laws toy_expand toy_dh toy_dh_pub toy_mlkem_decap toy_mlkem_encap toy_mlkem_pub toy_seal toy_open /\
   let prefix := [1; 0; 0; 0; 42] in
   let skR := zeros 32 in
-  exists pkR c,
-    public_from_private toy_dh_pub toy_mlkem_pub toy_shake256 X25519 skR = Ok pkR /\
-    hpke_encrypt toy_extract toy_expand toy_dh toy_dh_pub toy_mlkem_encap toy_sha3 toy_seal
-      X25519 HKDF_SHA256 AES128GCM prefix pkR (zeros 32) [1; 2; 3] [10; 20] = Ok c /\
-    hpke_decrypt toy_extract toy_expand toy_dh toy_dh_pub toy_mlkem_decap toy_shake256 toy_sha3 toy_open
-      X25519 HKDF_SHA256 AES128GCM prefix skR c [1; 2; 3] = Ok [10; 20] /\
-    hpke_decrypt toy_extract toy_expand toy_dh toy_dh_pub toy_mlkem_decap toy_shake256 toy_sha3 toy_open
-      X25519 HKDF_SHA256 AES128GCM prefix skR c [1; 2; 4] = Err.
+  match public_from_private toy_dh_pub toy_mlkem_pub toy_shake256 X25519 skR with
+  | Ok pkR =>
+    match hpke_encrypt toy_extract toy_expand toy_dh toy_dh_pub toy_mlkem_encap toy_sha3 toy_seal
+            X25519 HKDF_SHA256 AES128GCM prefix pkR (zeros 32) [1; 2; 3] [10; 20] with
+    | Ok c =>
+      hpke_decrypt toy_extract toy_expand toy_dh toy_dh_pub toy_mlkem_decap toy_shake256 toy_sha3 toy_open
+        X25519 HKDF_SHA256 AES128GCM prefix skR c [1; 2; 3] = Ok [10; 20] /\
+      hpke_decrypt toy_extract toy_expand toy_dh toy_dh_pub toy_mlkem_decap toy_shake256 toy_sha3 toy_open
+        X25519 HKDF_SHA256 AES128GCM prefix skR c [1; 2; 4] = Err
+    | _ => False
+    end
+  | _ => False
+  end.
 Proof.
   split.
   - split; [exact toy_expand_len|]. split; [exact toy_dh_comm|]. split; [exact toy_dh_pub_len|].
     split; [exact toy_mlkem_correct|]. split; [exact toy_mlkem_pub_len|].
     split; [exact toy_open_seal|exact toy_open_sound].
-  - eexists. eexists. vm_compute. repeat split.
+  - vm_compute. split; reflexivity.
 Qed.
 
 (* ================================================================== *)
@@ -298,7 +303,7 @@ Theorem C06_ecies_point_formats_round_trip :
 Proof.
   intros until siv_open. intros HL. use_ecies_laws HL. intros c f sk P e Hp He.
   destruct (E2 _ _ _ Hp) as (L & H4 & _).
-  split; [eapply point_decode_encode; eassumption|eapply point_encode_length; eassumption].
+  split; [exact (point_decode_encode _ _ E3 _ _ _ _ L H4 He)|exact (point_encode_length _ _ E3 _ _ _ _ He L H4)].
 Qed.
 Print Assumptions C06_ecies_point_formats_round_trip.
 
@@ -325,18 +330,23 @@ Example C06_ecies_nonvacuous :
     toy_aes_ctr toy_hmac toy_siv_seal toy_siv_open /\
   let skR := zeros 32 in
   let iv := zeros 12 in
-  exists pkR ct,
-    toy_ec_pub NIST_P256 skR = Some pkR /\
-    ecies_encrypt toy_ec_dh toy_ec_pub toy_ec_oncurve toy_hkdf toy_gcm_seal toy_aes_ctr toy_hmac toy_siv_seal
-      NIST_P256 SHA256 COMPRESSED AES128_GCM [5] [0; 0; 0; 0; 7] pkR (zeros 32) iv [1; 2; 3] [10; 20] = Ok ct /\
-    ecies_decrypt toy_ec_dh toy_ec_oncurve toy_ec_decompress toy_hkdf toy_gcm_open toy_aes_ctr toy_hmac toy_siv_open
-      NIST_P256 SHA256 COMPRESSED AES128_GCM [5] [0; 0; 0; 0; 7] skR ct [1; 2; 3] = Ok [10; 20] /\
-    ecies_decrypt toy_ec_dh toy_ec_oncurve toy_ec_decompress toy_hkdf toy_gcm_open toy_aes_ctr toy_hmac toy_siv_open
-      NIST_P256 SHA256 COMPRESSED AES128_GCM [5] [0; 0; 0; 0; 7] skR ct [1; 2; 4] = Err.
+  match toy_ec_pub NIST_P256 skR with
+  | Some pkR =>
+    match ecies_encrypt toy_ec_dh toy_ec_pub toy_ec_oncurve toy_hkdf toy_gcm_seal toy_aes_ctr toy_hmac toy_siv_seal
+            NIST_P256 SHA256 COMPRESSED AES128_GCM [5] [0; 0; 0; 0; 7] pkR (zeros 32) iv [1; 2; 3] [10; 20] with
+    | Ok ct =>
+      ecies_decrypt toy_ec_dh toy_ec_oncurve toy_ec_decompress toy_hkdf toy_gcm_open toy_aes_ctr toy_hmac toy_siv_open
+        NIST_P256 SHA256 COMPRESSED AES128_GCM [5] [0; 0; 0; 0; 7] skR ct [1; 2; 3] = Ok [10; 20] /\
+      ecies_decrypt toy_ec_dh toy_ec_oncurve toy_ec_decompress toy_hkdf toy_gcm_open toy_aes_ctr toy_hmac toy_siv_open
+        NIST_P256 SHA256 COMPRESSED AES128_GCM [5] [0; 0; 0; 0; 7] skR ct [1; 2; 4] = Err
+    | _ => False
+    end
+  | None => False
+  end.
 Proof.
   split.
   - split; [exact toy_ec_dh_comm|]. split; [exact toy_ec_pub_shape|]. split; [exact toy_ec_decompress_compress|].
     split; [exact toy_gcm_open_seal|]. split; [exact toy_gcm_seal_len|]. split; [exact toy_aes_ctr_involutive|].
     split; [exact toy_hmac_len|exact toy_siv_open_seal].
-  - eexists. eexists. vm_compute. repeat split.
+  - vm_compute. split; reflexivity.
 Qed.
